@@ -477,6 +477,15 @@ def check_roundtrip(o, case, f, clause_prefix=""):
                 cmp_annot(one, f"model={model}")
                 cmp_coord(one.coord, coords[m], f"model={model}")
                 cmp_coord(g.get_coord(model=model), coords[m], f"get_coord({model})")
+    # every optional field is read the same whether it is requested alone or together with the others
+    ref = g.get_structure(model=m + 1, extra_fields=extra)
+    for subset in (["atom_id"], ["b_factor"], ["occupancy"], ["charge"], ["occupancy", "charge"], ["charge", "b_factor"]):
+        part = g.get_structure(model=m + 1, extra_fields=list(subset))
+        for field in subset:
+            clause = {"atom_id": "atom_id_reproduced", "b_factor": "b_factor_reproduced", "occupancy": "occupancy_reproduced", "charge": "charge_reproduced"}[field]
+            o.check_array_eq(
+                np.asarray(part.get_annotation(field)), np.asarray(ref.get_annotation(field)), P + clause, f"{field} with extra_fields={subset}"
+            )
     # box
     if case.get("cell") is not None:
         want_len, want_ang = cell_params(cell_vectors(case["cell"]).astype(np.float32))
